@@ -758,6 +758,7 @@ Definition guards (c : cfg) (s : state) (e : event) : list guard :=
       [(0, 100, sched_id c n);
        (3, 101, match hs (Hd s n) with
                 | HCreated => negb (hcp (Hd s n))
+                | HRunning => false        (* program order: a late shutdown() call returns before the next one *)
                 | _ => rootb n && match ph (Rn s n) with POver => true | _ => false end
                 end)]
        ++ outs_guards 102 o mo
